@@ -1,12 +1,40 @@
 (** C17 — Radii lookups are alias-invariant, unit-correct and honest about missing data.
     Model: Model/Radii.v over Gen/Radii.v (both source tables and the generic-element aliases literal) and the
     periodic-table model of C01 ([to_E]).  [factor u] is the conversion factor from unit u to the requested unit
-    as reported by the implementation (an input of the model); values are exact rationals. *)
+    as reported by the implementation (an input of the model); values are exact rationals.
+
+    CLAUSE MAP (statement of C17 in properties.jsonl, clause -> theorems; "gen" = stated on / proved equal to the functions
+    of Gen/RadiiGlue.v, which harness/translate/radiiglue.py regenerates from covalent_radii.py, vanderwaals_radii.py and
+    datum.py on every run)
+    (a) a radius requested by any name of the atom (symbol, name, Z, nuclide label, any case) is the tabulated value for
+        that element:  C17_radius_by_element (ALL identifiers), C17_alias_invariant_radius (every row x alias forms x
+        cases), C17_tabulated_value_by_any_name (the source row's Datum and factor x Decimal(value), both sets).
+    (b) special labels return their own entries, bare element = largest variant:  C17_special_labels_own_entry,
+        C17_vdw_rows_own_entry, C17_bare_element_is_largest_variant, C17_special_labels_are_variants (every label with '_'
+        is a variant of an element that has a generic alias; it is no atom name, hence literal and case-sensitive:
+        C17_special_label_wrong_case_rejected).
+    (c) default = Bohr = tabulated Angstrom x Angstrom->Bohr factor of the context:  C17_bohr2angstroms_from_codata,
+        C17_default_is_tabulated_over_bohr2angstroms; the default unit of both get methods is "bohr":
+        C17_generated_get_is_model (g_*_units_default).  Native unit exact: C17_native_unit_exact,
+        C17_all_entries_native_unit.  Other length units scale linearly: C17_linear_in_factor,
+        C17_value_is_tabulated_times_factor (the factor itself — pint — is an input: C03).  Datum form carries the source
+        value in its native unit: C17_datum_carries_source_value, C17_tabulated_value_by_any_name.
+    (d) valid element without radius -> DataUnavailableError or exactly the caller's fallback; non-element ->
+        NotAnElementError:  C17_missing_contract (ALL identifiers/tables), C17_untabulated_element_contract (every
+        periodic-table row without entry x alias forms x cases), C17_non_atom_rejected, C17_public_missing_contract (gen, both
+        classes), C17_fails_closed.
+    (e) the public entry points ARE the model:  C17_generated_get_is_model (covalentradii.get and vdwradii.get as translated
+        = Model/Radii.get for all tables, identifiers, fallbacks, return forms, factors), C17_generated_to_units
+        (Datum.to_units as translated = conversion_factor(own unit, requested or own unit) x payload).
+    Only correspondence / oracle: Datum.to_units on array payloads and float rounding (2^-51 relative, bit-exact in the
+    Python oracle); that no call leaves state behind (history streams); pydantic construction of Datum; the unit factors
+    other than Angstrom->Bohr (sanity-checked in the oracle; C03's subject). *)
 From Coq Require Import ZArith QArith List String Bool.
 Require Import QV.Common.Outcome QV.Common.PyAscii.
 Require Import QV.Common.DecC02.
 Require Import QV.Gen.PTable QV.Gen.Radii QV.Model.PeriodicTable QV.Model.Radii QV.Model.RadiiUnits.
-Require Import QV.Proofs.PeriodicTable QV.Proofs.Radii QV.Proofs.RadiiUnits.
+Require Import QV.Model.PeriodicTableGlue QV.Model.RadiiGlue QV.Gen.RadiiGlue.
+Require Import QV.Proofs.PeriodicTable QV.Proofs.PeriodicTableReject QV.Proofs.Radii QV.Proofs.RadiiUnits QV.Proofs.RadiiWave3 QV.Proofs.RadiiGlue.
 Import ListNotations.
 Open Scope Z_scope.
 
@@ -163,7 +191,122 @@ Proof.
   destruct H as [H|H]; eapply get_closed; try exact H; apply table_data; assumption.
 Qed.
 
+(* ------------------------------------------------------------------------------------------ *)
+(** Wave 3. *)
+
+(** covalentradii.get and vdwradii.get AS TRANSLATED from the source on this run (Gen/RadiiGlue.v) are the hand-written
+    [get] — for ALL tables, identifiers, fallbacks (returned as the very object: [GMissing missing]), return forms and
+    unit factors; the default unit of both is "bohr". *)
+Theorem C17_generated_get_is_model :
+  (forall (M : Type) t x (missing : option M) rt f,
+     g_cov_get t x missing rt f = omap embed (get t x missing rt f) /\
+     g_vdw_get t x missing rt f = omap embed (get t x missing rt f)) /\
+  g_cov_units_default = "bohr"%string /\ g_vdw_units_default = "bohr"%string.
+Proof. split; [intros; split; [apply g_cov_get_eq|apply g_vdw_get_eq]|exact g_defaults_bohr]. Qed.
+
+(** Datum.to_units as translated: conversion_factor(own unit, requested unit — or own unit when none is given) times the
+    payload, whether the payload is a Decimal or not. *)
+Theorem C17_generated_to_units :
+  forall cf du data isdec units,
+    g_datum_to_units cf du data isdec units = datum_to_units (cf du (match units with None => du | Some u => u end)) data.
+Proof. exact g_datum_to_units_eq. Qed.
+
+(** The missing-data contract on the translated entry points of both classes. *)
+Theorem C17_public_missing_contract :
+  forall (M : Type) t x (missing : option M) rt f,
+    match ident t x with
+    | Err k => k = NotAnElement /\ g_cov_get t x missing rt f = Err NotAnElement /\ g_vdw_get t x missing rt f = Err NotAnElement
+    | Ok id =>
+        match tbl_get t id with
+        | None => g_cov_get t x missing rt f =
+                    match missing, rt with Some m, false => Ok (GMissing (Some m)) | _, _ => Err DataUnavailable end /\
+                  g_vdw_get t x missing rt f =
+                    match missing, rt with Some m, false => Ok (GMissing (Some m)) | _, _ => Err DataUnavailable end
+        | Some e => forall g, g = g_cov_get t x missing rt f \/ g = g_vdw_get t x missing rt f ->
+                    (forall o, g <> Ok (GMissing o)) /\ g <> Err DataUnavailable /\ g <> Err NotAnElement
+        end
+    end.
+Proof. exact @g_missing_contract. Qed.
+
+(** The tabulated value under ANY name of the element: if x names an atom of element l (C01: symbol, name, Z, digit
+    string, nuclide label, any case) and (l, v, c) is a row of the source table, get returns that row's Datum (native unit,
+    Decimal(v), its comment) and, as a number, factor x Decimal(v) — both radius sets. *)
+Theorem C17_tabulated_value_by_any_name :
+  forall (M : Type) x l v (missing : option M) f,
+    to_E x false = Ok l ->
+    (forall c, In (l, v, c) cov_rows ->
+       exists d, dec_of_string v = Some d /\
+         get cov_table x missing true f = Ok (RDatum {| en_label := l; en_units := cov_units; en_data := Some d; en_comment := c |}) /\
+         get cov_table x missing false f = Ok (RValue (f cov_units * dec_Q d)%Q)) /\
+    (In (l, v) vdw_rows ->
+       exists d, dec_of_string v = Some d /\
+         get vdw_table x missing true f = Ok (RDatum {| en_label := l; en_units := vdw_units; en_data := Some d; en_comment := "" |}) /\
+         get vdw_table x missing false f = Ok (RValue (f vdw_units * dec_Q d)%Q)).
+Proof.
+  intros M x l v missing f H. split.
+  - intros c I. exact (row_by_any_name cov_table cov_units cov_rows x l v c missing f cov_keys_self cov_rows_own_entry H I).
+  - intro I.
+    assert (I' : In (l, v, EmptyString) (map (fun r => (fst r, snd r, EmptyString)) vdw_rows)).
+    { apply in_map_iff. exists (l, v). split; [reflexivity|exact I]. }
+    exact (row_by_any_name vdw_table vdw_units _ x l v EmptyString missing f vdw_keys_self vdw_rows_own_entry H I').
+Qed.
+
+(** Every element row of the periodic table WITHOUT an entry in the set, in all alias forms and letter cases: exactly the
+    caller's fallback when one is given and a number is asked for, DataUnavailableError otherwise. *)
+Theorem C17_untabulated_element_contract :
+  forall (M : Type) z e n s (missing : option M) rt f,
+    In (z, e, n) elem_rows ->
+    same_mod_case s (str_of_Z z) \/ same_mod_case s e \/ same_mod_case s n ->
+    (tbl_get cov_table e = None ->
+     get cov_table (PInt z) missing rt f = match missing, rt with Some m, false => Ok (RMissing m) | _, _ => Err DataUnavailable end /\
+     get cov_table (PStr s) missing rt f = match missing, rt with Some m, false => Ok (RMissing m) | _, _ => Err DataUnavailable end) /\
+    (tbl_get vdw_table e = None ->
+     get vdw_table (PInt z) missing rt f = match missing, rt with Some m, false => Ok (RMissing m) | _, _ => Err DataUnavailable end /\
+     get vdw_table (PStr s) missing rt f = match missing, rt with Some m, false => Ok (RMissing m) | _, _ => Err DataUnavailable end).
+Proof.
+  intros M z e n s missing rt f H C. split; intro N.
+  - exact (untabulated_element_aliases cov_table z e n s missing rt f cov_keys_self H C N).
+  - exact (untabulated_element_aliases vdw_table z e n s missing rt f vdw_keys_self H C N).
+Qed.
+
+(** A non-atom (C01: names nothing) that is not an exact label of the table: NotAnElementError, whatever the options. *)
+Theorem C17_non_atom_rejected :
+  forall (M : Type) t x (missing : option M) rt f,
+    (forall k, ~ justified x k) -> (forall s, x = PStr s -> tbl_mem t s = false) ->
+    get t x missing rt f = Err NotAnElement.
+Proof. exact @non_atom_rejected. Qed.
+
+(** The special labels are tied to the generic-element aliases: every source row whose label contains '_' is a variant
+    E_xxx of an element E of the periodic table that has a generic alias (whose value is the largest variant,
+    C17_bare_element_is_largest_variant); the label itself is no atom name, so it is matched literally — a spelling of it in
+    another letter case is rejected.  The van der Waals set has no such labels. *)
+Theorem C17_special_labels_are_variants :
+  (forall l v c, In (l, v, c) cov_rows -> has_underscore l = true ->
+     (exists idn u src c', In (idn, u, src, c') cov_aliases /\ prefixb (idn ++ "_") l = true /\ In idn pt_E) /\
+     to_E (PStr l) false = Err NotAnElement) /\
+  (forall r, In r vdw_rows -> has_underscore (fst r) = false).
+Proof.
+  split; [exact variant_has_generic|].
+  intros r I. pose proof (proj1 (forallb_forall _ _) vdw_no_variants _ I) as A. now apply negb_true_iff in A.
+Qed.
+
+Theorem C17_special_label_wrong_case_rejected :
+  forall (M : Type) l v c s (missing : option M) rt f,
+    In (l, v, c) cov_rows -> has_underscore l = true -> same_mod_case s l -> tbl_mem cov_table s = false ->
+    get cov_table (PStr s) missing rt f = Err NotAnElement.
+Proof. exact @variant_wrong_case_rejected. Qed.
+
 (** Non-vacuity. *)
+Example C17_ex_wave3 :
+  let f := fun _ : string => (18897261254578281 # 10000000000000000)%Q in
+  g_cov_get cov_table (PStr "ts") (Some 4) false f = Ok (GMissing (Some 4)) /\
+  g_cov_get cov_table (PStr "ts") (Some 4) true f = Err DataUnavailable /\
+  g_vdw_get (M := unit) vdw_table (PStr "zz") None false f = Err NotAnElement /\
+  g_cov_get (M := unit) cov_table (PStr "C_sp2") None true f =
+     Ok (GDatum {| en_label := "C_sp2"; en_units := "angstrom"; en_data := Some (73, -2); en_comment := "e.s.d.=2 n=10 000" |}) /\
+  has_underscore "Mn_lowspin" = true /\ tbl_mem cov_table "mn_lowspin" = false /\ tbl_get cov_table "Ts" = None /\
+  g_datum_to_units (fun a b => if String.eqb a b then 1 else 2)%Q "angstrom" (76 # 100) true None = (1 * (76 # 100))%Q.
+Proof. cbv zeta. repeat split; vm_compute; reflexivity. Qed.
 Example C17_ex_bohr :
   b2a_Q = Some (52917721067 # 100000000000)%Q /\ default_codata_year = 2014 /\
   radius_bohr cov_table (PStr "c") = Ok (7600000000000 # 5291772106700)%Q.
@@ -205,3 +348,11 @@ Print Assumptions C17_all_entries_native_unit.
 Print Assumptions C17_datum_carries_source_value.
 Print Assumptions C17_missing_contract.
 Print Assumptions C17_fails_closed.
+Print Assumptions C17_generated_get_is_model.
+Print Assumptions C17_generated_to_units.
+Print Assumptions C17_public_missing_contract.
+Print Assumptions C17_tabulated_value_by_any_name.
+Print Assumptions C17_untabulated_element_contract.
+Print Assumptions C17_non_atom_rejected.
+Print Assumptions C17_special_labels_are_variants.
+Print Assumptions C17_special_label_wrong_case_rejected.
